@@ -500,6 +500,7 @@ pub struct Insert {
 #[cfg_attr(feature = "visitor", derive(Visit, VisitMut))]
 pub struct Delete {
     /// Multi tables delete are supported in mysql
+    #[cfg_attr(feature = "visitor", visit(with = "visit_relation"))]
     pub tables: Vec<ObjectName>,
     /// FROM
     pub from: FromTable,
